@@ -236,7 +236,40 @@ def programmatic_entry_points(tmp, src, helpers, reference_mir):
             dd = cm.first_diff(ref, normalize(strip_locations(o["mir"])))
             if dd:
                 viol.append(("entry-points", f"compile_{via}, call {k + 1} in one process: MIR differs from the command line's MIR of the same text: {dd}"))
+        # ... and after programs that fail inside the compiler once part of their outputs was converted (an element of the
+        # returned list that is not an Output; two different inputs under one name), sharing input and party names with it
+        for tag, bad_src in FAIL_INSIDE.items():
+            bad_path = os.path.join(d, f"fails_{tag}.py")
+            with open(bad_path, "w", encoding="utf-8") as f:
+                f.write(bad_src)
+            p = subprocess.run([sys.executable, "-m", "nv.real.fresh_hist", via, bad_path, path, bad_path, path], cwd=tmp, env=env,
+                               capture_output=True, text=True, timeout=300)
+            try:
+                outs = _json.loads(p.stdout)
+            except ValueError:
+                raise core.Infra(f"fresh_hist failed: {(p.stderr or p.stdout)[-300:]}")
+            for k in (1, 3):
+                o = outs[k]
+                n += 1
+                if "mir" not in o:
+                    viol.append(("entry-points", f"compile_{via} after a program that failed inside the compiler ({tag}): {o.get('err')}: {o.get('msg')}; "
+                                                 f"the command line compiles the same text"))
+                    break
+                dd = cm.first_diff(ref, normalize(strip_locations(o["mir"])))
+                if dd:
+                    viol.append(("entry-points", f"compile_{via} after a program that failed inside the compiler ({tag}): MIR differs from the command "
+                                                 f"line's MIR of the same text: {dd}"))
+                    break
     return viol, n
+
+
+FAIL_INSIDE = {
+    "non-output": "from nada_dsl import *\n\ndef nada_main():\n    p = Party(name=\"P\")\n    q = Party(name=\"Leftover\")\n    a = SecretInteger(Input(name=\"a\", party=q))\n"
+                  "    extra = SecretInteger(Input(name=\"leftover\", party=q))\n    return [Output(a + extra, \"first\", p), a]\n",
+    "duplicate-input": "from nada_dsl import *\n\ndef nada_main():\n    p = Party(name=\"P\")\n    b = SecretInteger(Input(name=\"b\", party=p))\n"
+                       "    b2 = SecretInteger(Input(name=\"dup\", party=p))\n    b3 = SecretInteger(Input(name=\"dup\", party=p))\n"
+                       "    return [Output(b * b, \"first\", p), Output(b2 + b3, \"second\", p)]\n",
+}
 
 FAILING = {
     "missing entry point": "from nada_dsl import *\n\ndef main():\n    return []\n",
@@ -301,6 +334,9 @@ LITERAL_PROG = ("from nada_dsl import *\n\n\ndef nada_main():\n    p = Party(nam
 IMPORTING = "import json\nimport os\nimport typing\n"
 
 
+DASH_NAMES = ["-neg.py", "-script.py", "--help.py", "-s.py"]
+
+
 def check_names(src, tmp, names, reference):
     """the same text under every file name must give the reference result (up to source-location details)"""
     viol = []
@@ -314,7 +350,11 @@ def check_names(src, tmp, names, reference):
         # like a standard-library module there would shadow it for the interpreter itself (not the DSL's doing)
         neutral = os.path.join(tmp, "neutral_cwd")
         os.makedirs(neutral, exist_ok=True)
-        rc, out = cli([path], neutral, {})
+        if name in DASH_NAMES:
+            # a file whose name begins with a dash, given as the user types it: by its bare name, from its directory
+            rc, out = cli([name], d, {})
+        else:
+            rc, out = cli([path], neutral, {})
         obj, err = parse_line(out)
         if err:
             viol.append(("envelope", f"file name {name!r}: {err}: {out[:200]!r}"))
@@ -403,7 +443,7 @@ def run(res, tier):
                 continue
             names = FILE_NAMES if tier != "quick" else FILE_NAMES[:10]
             if src == LITERAL_PROG or tier != "quick":
-                names = names + [n for n in derived if n not in names]
+                names = names + [n for n in derived if n not in names] + DASH_NAMES
             with ThreadPoolExecutor(max_workers=8) as ex:
                 chunks = [names[i::8] for i in range(8)]
                 for viol in ex.map(lambda ch: check_names(src, tmp, ch, ref), chunks):
